@@ -19,6 +19,11 @@
   count, any list) is refused (`processSMPTLV` then throws "corrupt data message").
   Recovery: every rejected message leaves the machine in EXPECT1 (transition facts regenerated from
   /repo: Props.FactsOk.transitions_smpState) from which `c11_equal_success` applies.
+  `continueSMP_refused_keeps_state`, `provideAuthenticationSecret_refused_frame` (repaired code, exact;
+  Proofs.Fixes4): a ProvideAuthenticationSecret that nobody asked for (any state but
+  waiting-for-secret) returns `notWaitingForSecret`, sends nothing and leaves the whole conversation as
+  it was — except that a nil SMP state becomes EXPECT1 (`ensureSmpConv`); with a state that is set
+  nothing changes at all (`…_refused_unchanged`): a run in progress is not reset behind the peer's back.
   Not a theorem: computational soundness of the proofs against a cheater who deviates within the
   group (decided only by the `smp` profile's boundary/perturbation inputs), and — KNOWN FINDING —
   OTRv2 accepts degenerate elements 1, p−1, ≥ p (unit tests pin that v2 does not range-check).
@@ -26,6 +31,7 @@
 
 import Proofs.Smp
 import Proofs.ConvData
+import Proofs.Fixes4
 namespace Otr.C12
 open Otr
 
@@ -116,5 +122,37 @@ theorem toSmp4_isSome_iff : type_of% @Otr.toSmp4_isSome_iff := @Otr.toSmp4_isSom
 
 /-- what the sender serialises for a list of the wrong length is rejected, for every list -/
 theorem toSmp_genSMPTLV_wrong_count : type_of% @Otr.toSmp_genSMPTLV_wrong_count := @Otr.toSmp_genSMPTLV_wrong_count
+
+/-- repaired code (exact): `continueSMP` outside waiting-for-secret throws `notWaitingForSecret`; the conversation is unchanged except that a nil SMP state becomes EXPECT1 -/
+theorem continueSMP_refused_keeps_state (K : Crypto) (secret : Bytes) (s : MState)
+    (h : ∀ m, s.conv.smp.state ≠ some (.waitingForSecret m)) :
+    runM (continueSMP K secret) s =
+      .ok (.error .notWaitingForSecret, { s with conv := ensureSmpConv s.conv }) := by
+  first | exact Otr.continueSMP_refused_keeps_state K secret s h | (apply Otr.continueSMP_refused_keeps_state <;> assumption)
+
+/-- … with a state that is set nothing changes at all -/
+theorem continueSMP_refused_unchanged (K : Crypto) (secret : Bytes) (s : MState) (st : SmpState)
+    (hst : s.conv.smp.state = some st) (h : ∀ m, st ≠ .waitingForSecret m) :
+    runM (continueSMP K secret) s = .ok (.error .notWaitingForSecret, s) := by
+  first | exact Otr.continueSMP_refused_unchanged K secret s st hst h | (apply Otr.continueSMP_refused_unchanged <;> assumption)
+
+/-- repaired code (exact), API level: a ProvideAuthenticationSecret nobody asked for returns the error — nothing is sent, queued, logged or consumed — and the conversation is unchanged up to `ensureSMP` -/
+theorem provideAuthenticationSecret_refused_frame (K : Crypto) (secret : Bytes) (s : MState)
+    (h : ∀ m, s.conv.smp.state ≠ some (.waitingForSecret m)) :
+    runM (provideAuthenticationSecret K secret) s =
+      .ok (.error .notWaitingForSecret, { s with conv := ensureSmpConv s.conv }) := by
+  first | exact Otr.provideAuthenticationSecret_refused_frame K secret s h | (apply Otr.provideAuthenticationSecret_refused_frame <;> assumption)
+
+/-- … with a state that is set nothing changes at all -/
+theorem provideAuthenticationSecret_refused_unchanged (K : Crypto) (secret : Bytes) (s : MState) (st : SmpState)
+    (hst : s.conv.smp.state = some st) (h : ∀ m, st ≠ .waitingForSecret m) :
+    runM (provideAuthenticationSecret K secret) s = .ok (.error .notWaitingForSecret, s) := by
+  first | exact Otr.provideAuthenticationSecret_refused_unchanged K secret s st hst h | (apply Otr.provideAuthenticationSecret_refused_unchanged <;> assumption)
+
+/-- what `ensureSmpConv` is: only the SMP state can differ, and it is the old one unless that was nil (then EXPECT1) -/
+theorem ensureSmpConv_frame : type_of% @Otr.ensureSmpConv_frame := @Otr.ensureSmpConv_frame
+
+/-- a state that is set: `ensureSmpConv` is the identity -/
+theorem ensureSmpConv_of_some : type_of% @Otr.ensureSmpConv_of_some := @Otr.ensureSmpConv_of_some
 
 end Otr.C12
